@@ -1053,8 +1053,13 @@ def wmom(
 
     # how should error be calculated?
     if calcerr:
-        werr2 = (weights ** 2 * (arr - wmean) ** 2).sum(axis=0)
-        werr = np.sqrt(werr2) / wtot
+        # the estimate is invariant under a common scale of the weights:
+        # normalize by the largest one so that weights**2 stays inside the
+        # floating point range for very small / very large weights
+        wmax = np.abs(weights).max(axis=0)
+        wnorm = weights / np.where(wmax > 0, wmax, 1.0)
+        werr2 = (wnorm ** 2 * (arr - wmean) ** 2).sum(axis=0)
+        werr = np.sqrt(werr2) / wnorm.sum(axis=0)
     else:
         werr = 1.0 / np.sqrt(wtot)
         if not np.isscalar(werr) and len(werr) < ndim:
